@@ -477,6 +477,60 @@ theorem %s_o (env : Env) %s:
         "Source handler: the indication log is in causal order — Transaction, then EOF-Sent (possibly repeated),\n"
         "then Transaction-Finished, each for the transaction opened by the last Transaction indication (C15).",
         inline=("modP",), extra_imports="import CfdpVerif.Lemmas.StdDo")
+    files["InvSourceBound.lean"] = gen(
+        "Source", "Bound", "AckBound", "b",
+        "/-- the positive-ACK retry counter stays below the limit: outside a transaction it is 0, inside it is 0\n"
+        "or `counter + 1 ≤ limit` (so the EOF is re-sent at most `limit - 1` times) -/\n"
+        "def AckBound (_ : Env) (s : SrcSt) : Prop :=\n"
+        "  (s.state ≠ .busy → s.p.remoteCfg = none ∧ s.p.ackCounter = 0) ∧\n"
+        "  ∀ rc, s.p.remoteCfg = some rc → s.p.ackCounter = 0 ∨ s.p.ackCounter + 1 ≤ rc.ackLim",
+        "first | (simp_all [AckBound]; done) | (simp_all [AckBound]; omega) | (simp_all [AckBound]; grind)",
+        {"handlePositiveAck": '''open Std.Do in
+set_option mvcgen.warning false in
+theorem handlePositiveAck_b (env : Env) :
+    Preserves (AckBound env) (handlePositiveAckProcedures env) := by
+  apply preserves_of_triple
+  have h1 := fun c => triple_of_preserves (declareFault_b env c)
+  have h2 := fun n => triple_of_preserves (checksumCalculation_b env n)
+  have h3 := fun c => triple_of_preserves (prepareEofPdu_b env c)
+  mvcgen [handlePositiveAckProcedures, getP, modP, h1, h2, h3]
+  all_goals (simp +zetaDelta only [AckBound] at *; grind)''',
+         "putRequest": '''open Std.Do in
+set_option mvcgen.warning false in
+theorem putRequest_b (env : Env) (q : PutReq) :
+    Preserves (AckBound env) (putRequest env q) := by
+  apply preserves_of_triple
+  mvcgen [putRequest, modP]
+  all_goals (simp +zetaDelta only [AckBound] at *; grind)'''}, {},
+        "Source handler: the retry counter of the EOF never reaches the limit — for every call sequence (C04).",
+        inline=("modP",), extra_imports="import CfdpVerif.Lemmas.StdDo")
+    files["InvDestBound.lean"] = gen(
+        "Dest", "Bound", "NakBound", "b",
+        "/-- the NAK retry counter stays below its limit: outside a transaction there is no remote configuration\n"
+        "and the counter is 0; inside, `counter + 1 ≤ limit` whenever the limit is at least 1 (so the NAK\n"
+        "sequence is re-issued at most `limit - 1` times without progress) -/\n"
+        "def NakBound (_ : Env) (s : DestSt) : Prop :=\n"
+        "  (s.state ≠ .busy → s.p.remoteCfg = none ∧ s.p.nakCounter = 0) ∧\n"
+        "  ∀ rc, s.p.remoteCfg = some rc → 1 ≤ rc.nakLim → s.p.nakCounter + 1 ≤ rc.nakLim",
+        "first | (simp_all [NakBound]; done) | (simp_all [NakBound]; omega) | (simp_all [NakBound]; grind)",
+        {"commonFirstPacketHandler": '''open Std.Do in
+set_option mvcgen.warning false in
+theorem commonFirstPacketHandler_b (env : Env) (h : Hdr) :
+    Preserves (NakBound env) (commonFirstPacketHandler env h) := by
+  apply preserves_of_triple
+  mvcgen [commonFirstPacketHandler, modP]
+  all_goals (simp +zetaDelta only [NakBound] at *; grind)''',
+         "deferred": '''open Std.Do in
+set_option mvcgen.warning false in
+theorem deferred_b (env : Env) :
+    Preserves (NakBound env) (deferredLostSegmentHandling env) := by
+  apply preserves_of_triple
+  have h1 := triple_of_preserves (checksumVerify_b env)
+  have h3 := fun c => triple_of_preserves (declareFault_b env c)
+  mvcgen [deferredLostSegmentHandling, getP, modP, addPackets, h1, h3]
+  all_goals (simp +zetaDelta only [NakBound] at *; grind)'''}, {},
+        "Destination handler: the retry counter of the NAK sequence never reaches its limit — for every call\n"
+        "sequence (C04).", inline=("modP",), extra_imports="import CfdpVerif.Lemmas.StdDo")
     for n, t in files.items():
         (OUT / n).write_text(t)
         print("wrote", n)
